@@ -73,14 +73,14 @@ CLAIMED.update({
 CLAIMED.update({
     "C19": ("exploration",
             "property-based testing (rapid) + Go native coverage-guided fuzzing (thorough tier): structured byte mutations and CRC-consistent hostile framing fields over engine-written files; oracle = no panic, allocation bound, in-bounds metadata, returned rows subset of written rows, exact-or-error with MetaStore-held metadata, clean Merge over a corrupted source",
-            "3 000 (quick) / 150 000 (thorough) structured corruptions plus native fuzz targets seeded with valid files; each case runs the public read helpers and queries in three store arrangements. Exploration: no absence claim for the unexplored byte space.",
+            "hundreds (quick) to thousands (thorough) of structured corruptions plus native fuzz targets seeded with valid files; each case runs the public read helpers and queries in three store arrangements. Exploration: no absence claim for the unexplored byte space.",
             "Allocation measured via runtime.MemStats.TotalAlloc around single-goroutine helper calls; only the framing fields the property lists are set to hostile values.", "DESIGN.md section 5 C19"),
 })
 
 CLAIMED.update({
     "C06": ("fault_enumeration",
             "property-based testing (rapid) with exhaustive fault injection inside each generated history: the fault-free run numbers every store call, the history is re-executed once per call position (three failure shapes, provoked cleanup calls, sampled pairs); oracle = model of acknowledged batches vs. visibility on this engine / a fresh engine / after Merge",
-            "Within each generated history every store-call position visible to the harness is enumerated, not sampled; histories themselves are sampled (25 quick / 600 thorough). Covers CreateFile, Write (fail and short write), Close (fail and publish-then-fail), Abort, Update, TombstoneFile.",
+            "Within each generated history every store-call position visible to the harness is enumerated, not sampled; histories themselves are sampled (tens in the quick tier, hundreds in the thorough tier). Covers CreateFile, Write (fail and short write), Close (fail and publish-then-fail), Abort, Update, TombstoneFile.",
             "Error-means-absent is judged with MemoryMetaStore (atomic Update) as the property states; with FileSystemDataStore as MetaStore only nil-means-visible is judged. Faults are one-shot.", "DESIGN.md section 5 C06"),
     "C13": ("fault_enumeration",
             "property-based testing (rapid) with exhaustive fault injection inside each generated population: every store call of a Merge (iterator, CreateFile, OpenFile, Read, Seek, Write, Close, Abort, Update, TombstoneFile) is failed once on a fresh copy; oracle = committed-or-unchanged invariant over MetaStore pointers, file bytes, row multiset, call-log order and the returned error; gated two-Merge schedule for ErrMergeInProgress",
@@ -94,26 +94,26 @@ SCHED_NOTE = ("The harness owns every store call (latency, one-shot failures, ga
 CLAIMED.update({
     "C05": ("exploration",
             "property-based testing (rapid): generated multi-client schedules (IngestRows/Flush/Start/Stop/Query/Merge, channel kinds, store latency and failures) with a history invariant — exactly one value per accepted batch once Stop returned nil",
-            "300 (quick) / 10 000 (thorough) generated schedules over engines started first/late/twice/never; every accepted batch's channel is observed for 0, 1 or >1 answers right after Stop and after a quiescence window.",
+            "hundreds (quick) to thousands (thorough) of generated schedules over engines started first/late/twice/never; every accepted batch's channel is observed for 0, 1 or >1 answers right after Stop and after a quiescence window.",
             SCHED_NOTE, "DESIGN.md section 5 C05"),
     "C07": ("exploration",
             "property-based testing (rapid): generated ingest/Flush schedules over slow stores with an order-observing oracle (newest-first polling of done channels, visibility query at each observed nil ack and at each Flush return)",
-            "Acceptance order is known (one ingester); observation is sound because a later ack is only ever observed after it was sent. 200 (quick) / 5 000 (thorough) schedules, most with a flush in flight at the moment of observation.",
+            "Acceptance order is known (one ingester); observation is sound because a later ack is only ever observed after it was sent. hundreds (quick) to thousands (thorough) of schedules, most with a flush in flight at the moment of observation.",
             SCHED_NOTE, "DESIGN.md section 5 C07"),
     "C08": ("exploration",
             "property-based testing (rapid): generated Stop schedules with wedged / ctx-ignoring stores, blocked producers, abandoned done channels and custom Context implementations (late AfterFunc); oracle over the recorded call history (logical clock of the store wrapper) plus bounded-time checks with confirm-by-replay",
-            "100 (quick) / 3 000 (thorough) schedules; most end in a deadline error with flushes queued behind the wedge. Checks refusal of new work, drain-before-nil, deadline + 350 ms, no CreateFile/Update after a deadline error, and that every receivable waiter gets a value.",
+            "hundreds (quick) to thousands (thorough) of schedules; most end in a deadline error with flushes queued behind the wedge. Checks refusal of new work, drain-before-nil, deadline + 350 ms, no CreateFile/Update after a deadline error, and that every receivable waiter gets a value.",
             SCHED_NOTE, "DESIGN.md section 5 C08"),
 })
 
 CLAIMED.update({
     "C09": ("exploration",
             "property-based testing (rapid): generated stall schedules (ctx-ignoring gate at a generated store call, hammering / trickling producers, Flush storms, stalls longer than MaxBufferedTime) with a configuration-derived bound on accepted-but-unanswered batches; drain check after release",
-            "60 (quick) / 1 500 (thorough) stalls; most have producers attempting >= 3x the bound. Over-bound verdicts must reproduce twice.",
+            "hundreds (quick) to thousands (thorough) of stalls; most have producers attempting >= 3x the bound. Over-bound verdicts must reproduce twice.",
             SCHED_NOTE, "DESIGN.md section 5 C09"),
     "C10": ("exploration",
             "property-based testing (rapid): model-based — a reference model of the ingest buffer (rows, marshaled bytes, per-partition counts) predicts when a limit is certainly reached; generated limit settings x batch shapes; time-bounded oracle with confirm-by-replay",
-            "100 (quick) / 2 500 (thorough) generated configurations and batch sequences, no Flush/Stop while obligations are open; immediate-flush obligations only when the limit is reached under any reasonable byte accounting.",
+            "hundreds (quick) to thousands (thorough) of generated configurations and batch sequences, no Flush/Stop while obligations are open; immediate-flush obligations only when the limit is reached under any reasonable byte accounting.",
             SCHED_NOTE, "DESIGN.md section 5 C10"),
 })
 
@@ -123,7 +123,7 @@ CURSOR_NOTE = ("The harness owns the consumer (Next/Close/cancel timing), every 
 CLAIMED.update({
     "C20": ("exploration",
             "property-based testing (rapid): generated consumer scripts (Next xk, Close/cancel from this or another goroutine, stalls, batch-boundary stops) x store fault sequences x engine lifecycle, with a terminal-state oracle over the observed Next/Err/Close history",
-            "400 (quick) / 10 000 (thorough) scripts over datasets with several 64-row batches per block; checks termination, stickiness of false, Close idempotence/concurrency/nil, Err classification (clean / failures / cancelled), and that no row is handed out after the consumer's own Close/cancel completed.",
+            "hundreds (quick) to thousands (thorough) of scripts over datasets with several 64-row batches per block; checks termination, stickiness of false, Close idempotence/concurrency/nil, Err classification (clean / failures / cancelled), and that no row is handed out after the consumer's own Close/cancel completed.",
             CURSOR_NOTE, "DESIGN.md section 5 C20"),
     "C21": ("exploration",
             "property-based testing (rapid): the same generated cursor scripts judged by resource accounting — per-handle open/close/use-after-close/concurrent-use counters in the store wrapper, iterator-open gauge, goroutine stack inspection, and a barrier-gated follow-up query that must reach MaxQueryConcurrency simultaneous reads",
@@ -131,7 +131,7 @@ CLAIMED.update({
             CURSOR_NOTE, "DESIGN.md section 5 C21"),
     "C22": ("exploration",
             "property-based testing (rapid): generated sets of concurrent queries with read latency and stalled consumers; invariant = gauge of in-progress OpenFile/Seek/Read on query handles <= MaxQueryConcurrency, and bounded completion of non-stalled queries (confirm-by-replay)",
-            "150 (quick) / 4 000 (thorough) schedules; most reach the limit exactly (more block jobs than slots). Exploration of schedules, not all of them.",
+            "hundreds (quick) to thousands (thorough) of schedules; most reach the limit exactly (more block jobs than slots). Exploration of schedules, not all of them.",
             CURSOR_NOTE, "DESIGN.md section 5 C22"),
 })
 
@@ -142,19 +142,19 @@ CLAIMED.update({
             "The durability model is a model, not a filesystem (data durable as of the file's last fsync, directory entries as of the last directory fsync, pending directory operations persist as ordered prefixes); granularity is the hook's events.", "DESIGN.md section 5 C15"),
     "C16": ("exploration",
             "property-based testing (rapid): model-based state machine over FileSystemDataStore (CreateFile with hook-forced name collisions, chunked Write, Close, Abort, TombstoneFile, OpenFile, scan, parallel CreateFile bursts); the directory is compared with the model after every operation",
-            "500 (quick) / 20 000 (thorough) operation sequences over up to 4 open writers; about half force a collision with a live file; a quarter also tombstone an open writer's pointer ('any sequence').",
+            "hundreds (quick) to thousands (thorough) of operation sequences over up to 4 open writers; about half force a collision with a live file; a quarter also tombstone an open writer's pointer ('any sequence').",
             "The pointer is the path: a TombstoneFile through an older copy of a pointer acts on whatever file lives at that path; forced names are not re-used while a tombstoned writer is still open (that combination is the contract-violating finding-8 scenario described in DESIGN.md).", "DESIGN.md section 5 C16"),
 })
 
 CLAIMED.update({
     "C14": ("exploration",
             "property-based testing (rapid): generated flush/merge histories for both shipped MetaStores with harness-owned interleavings — a complete probe query before and after every store call of every flush and merge (window), a query whose MetaStore iteration is paused while a Merge or flush commits (span), free-running writers/merger/queriers (stress); history oracle over unique row ids and acknowledgement times",
-            "150 (quick) / 3 000 (thorough) generated cases; in window mode every publish / commit / cleanup boundary visible to the store wrapper is probed, so the windows are owned rather than hoped for; stress interleavings are sampled. Two known findings of FileSystemDataStore-as-MetaStore (duplicates in the publish-to-removal window, omissions when the scan listed the directory before the commit) are re-observed, attributed by signature (affected ids are exactly rows of the Merge in progress) and excluded; anything else is a violation.",
+            "hundreds (quick) to thousands (thorough) of generated cases; in window mode every publish / commit / cleanup boundary visible to the store wrapper is probed, so the windows are owned rather than hoped for; stress interleavings are sampled. Two known findings of FileSystemDataStore-as-MetaStore (duplicates in the publish-to-removal window, omissions when the scan listed the directory before the commit) are re-observed, attributed by signature (affected ids are exactly rows of the Merge in progress) and excluded; anything else is a violation.",
             "Err()!=nil imposes nothing on content except never inventing rows. On the filesystem MetaStore, free-running stress queries that overlap a Merge and disagree are excluded and counted (the gated modes judge that window precisely).",
             "DESIGN.md section 5 C14"),
     "C27": ("exploration",
             "property-based testing (rapid): generated operation histories with one-shot store failures, corrupt files, filter-less external files and wedged Stop deadlines, each executed by a plain child program (no test framework) whose stdout and stderr are pipes owned by the parent; oracle = both streams empty byte for byte with Logger == nil; twin run with a counting slog.Logger proves logging call sites and failure paths were reached",
-            "240 (quick) / 6 000 (thorough) scenarios; the evidence names every Warn message and failure path reached (at seed 1 quick: five of the six Warn call sites of the current tree, post-commit merge cleanup failure, failed flushes/merges/queries). Exploration of histories, not all of them.",
+            "hundreds (quick) to thousands (thorough) of scenarios; the evidence names every Warn message and failure path reached (at seed 1 quick: five of the six Warn call sites of the current tree, post-commit merge cleanup failure, failed flushes/merges/queries). Exploration of histories, not all of them.",
             "Anything written by the library's dependencies to the process's streams counts too; a child that fails without output is reported as inconclusive, not as a violation.",
             "DESIGN.md section 5 C27"),
 })
